@@ -9,6 +9,7 @@ import (
 	"encoding/json"
 	"fmt"
 	"os"
+	"regexp"
 	"sort"
 	"strings"
 
@@ -86,8 +87,33 @@ func main() {
 		if fn.Synthetic != "" {
 			continue
 		}
+		locks := false
 		for _, b := range fn.Blocks {
 			for _, ins := range b.Instrs {
+				if call, ok := ins.(ssa.CallInstruction); ok {
+					if callee := call.Common().StaticCallee(); callee != nil && (callee.Name() == "Lock" || callee.Name() == "RLock") {
+						locks = true
+					}
+				}
+			}
+		}
+		configTime := regexp.MustCompile(`^(Add|Register|New|add|Clause|Compiler|Renderer|Delims|StrictVariables)`).MatchString(fn.Name())
+		for _, b := range fn.Blocks {
+			for _, ins := range b.Instrs {
+				if mu, ok := ins.(*ssa.MapUpdate); ok && !locks && !configTime {
+					// a map reached through a field of a (shared) structure, written outside configuration
+					if un, ok := mu.Map.(*ssa.UnOp); ok {
+						if fa, ok := un.X.(*ssa.FieldAddr); ok {
+							pos := prog.Fset.Position(mu.Pos())
+							name := fa.X.Type().String() + "." + fmt.Sprint(fa.Field)
+							// the variable map of one render (a copy made when the render starts) is not shared
+							if strings.HasSuffix(fa.X.Type().String(), "expressions.context") || strings.HasSuffix(fa.X.Type().String(), "render.nodeContext") {
+								continue
+							}
+							cells = append(cells, cell{fn.String(), name, fmt.Sprintf("%s:%d", strings.TrimPrefix(pos.Filename, dir+"/"), pos.Line), "sharedmap"})
+						}
+					}
+				}
 				st, ok := ins.(*ssa.Store)
 				if !ok {
 					continue
